@@ -16,6 +16,7 @@ import (
 	"os"
 	"os/exec"
 	"path/filepath"
+	"regexp"
 	"sort"
 	"strings"
 	"sync"
@@ -478,7 +479,7 @@ func (w *worker) run(hist []int, op int) result {
 	for _, h := range hist {
 		ok, v := w.ops[h].apply(e)
 		if !ok || v != "" {
-			kit.Harness("history %v does not replay: op %s applicable=%v %s", hist, w.ops[h].name, ok, v)
+			kit.UnderTestFailed("a history that ran cleanly before does not run cleanly again in a fresh directory (state kept outside the cache directory, e.g. leaked descriptors): %v, op %s: applicable=%v %s", hist, w.ops[h].name, ok, v)
 		}
 	}
 	var before string
@@ -520,6 +521,8 @@ func histNames(ops []opDef, hist []int, op int) []string {
 }
 
 func violClass(v string) string {
+	// paths under the scratch directory differ from run to run: not part of a class
+	v = regexp.MustCompile(`"?/[^\s"]+"?`).ReplaceAllString(v, "<path>")
 	f := strings.Fields(v)
 	if len(f) > 3 {
 		f = f[:3]
